@@ -81,3 +81,72 @@ def c15_unsatflag(R):
             construct=f"{name}: derives solvers from children without the unsat flag",
         )
     R.need(n >= 2, f"only {n} deriving operations found (split, merge expected)")
+
+
+# fields that __setstate__ may rebuild blank: a blank value means "nothing known", every reader falls back to the solver
+_BLANK_MEANS_UNKNOWN = {
+    ("FullFrontend", "_to_add"): "no native solver exists after unpickling (fresh thread-local): every constraint is added again from `constraints` on first use",
+    ("FullFrontend", "_tls"): "fresh per-thread slot; the native solver is rebuilt on demand",
+    ("CompositedCacheMixin", "_merged_solvers"): "cache of merged children, rebuilt on demand",
+    ("ModelCache", "replacements"): "memo of evaluated expressions",
+    ("ModelCache", "constraint_only_replacements"): "memo of evaluated expressions",
+    ("ModelCacheMixin", "_models"): "no cached model: the next query asks the solver",
+    ("ModelCacheMixin", "_exhausted"): "False = not known to be exhausted",
+    ("ModelCacheMixin", "_eval_exhausted"): "no mark: the next query asks the solver",
+    ("ModelCacheMixin", "_max_exhausted"): "no mark",
+    ("ModelCacheMixin", "_min_exhausted"): "no mark",
+    ("ModelCacheMixin", "_max_signed_exhausted"): "no mark",
+    ("ModelCacheMixin", "_min_signed_exhausted"): "no mark",
+}
+
+
+@rule(
+    "FE.fields.unpickleblank",
+    props=("C18", "C12"),
+    floor=8,
+    family="SIB",
+    desc="a field that __setstate__ rebuilds without reading the pickled state or the restored fields (an empty container, "
+    "a constant) is one whose blank value means 'nothing known' to every reader; an obligation list such as the "
+    "composite's children-still-to-check is rebuilt from the restored children",
+)
+def fe_fields_unpickleblank(R):
+    from .fe_state import _field_classes
+
+    tree = R.tree
+    n = 0
+    for m, c, fields, ms in _field_classes(tree):
+        ss = ms.get("__setstate__")
+        if ss is None:
+            continue
+        params = {a.arg for a in ss.args.args} - {"self"}
+        # locals unpacked from the state
+        tainted = set(params)
+        for _ in range(3):
+            for st in walk_no_nested(ss):
+                if isinstance(st, ast.Assign) and any(isinstance(x, ast.Name) and x.id in tainted for x in ast.walk(st.value)):
+                    for t in st.targets:
+                        for x in ast.walk(t):
+                            if isinstance(x, ast.Name):
+                                tainted.add(x.id)
+        for a, kind, node, val in util.attr_writes(ss, "self"):
+            if kind != "assign" or val is None:
+                continue
+            from_state = any(isinstance(x, ast.Name) and x.id in tainted for x in ast.walk(val))
+            from_self = any(isinstance(x, ast.Attribute) and isinstance(x.value, ast.Name) and x.value.id == "self" for x in ast.walk(val))
+            from_elsewhere = any(isinstance(x, ast.Call) and not util.is_fresh_container(x) for x in ast.walk(val)) and not util.is_fresh_container(val)
+            if from_state or from_self or from_elsewhere:
+                continue
+            n += 1
+            why = _BLANK_MEANS_UNKNOWN.get((c.name, a))
+            R.check(
+                why is not None,
+                m,
+                node,
+                f"{c.name}.{a} rebuilt blank: {why}",
+                f"{c.name}.__setstate__ rebuilds self.{a} as `{ast.unparse(val)[:50]}` without reading the pickled state or the "
+                f"restored fields, and a blank {a} is not classified as 'nothing known': an unpickled object then claims something "
+                f"the pickled one did not (a SolverComposite pickled before its first query had no child left to check and "
+                f"answered satisfiable() == True for `0 <s x` and `x <s 0`)",
+                construct=f"{c.name}.{a} rebuilt blank by __setstate__",
+            )
+    R.need(n >= 8, f"only {n} blank rebuilds found")
